@@ -10,7 +10,10 @@ RULE = (
     'One case = one scenario + one interleaving. Scenario (seeded): 2-5 successive containers of one instance '
     '(shapes move / same / pingpong / same3 / move-stay / stay-move / random, or two instances handing on one '
     'identity) on two hosts, 0-2 endpoints, optional identity; client actions put(c) and del(c) partially ordered '
-    '(put(c_i) before put(c_i+1) and before del(c_i); del(c_i) and put(c_i+1) unordered); in 40% of the two-instance '
+    '(put(c_i) before put(c_i+1) and before del(c_i); del(c_i) and put(c_i+1) unordered); request ids are formatted as the '
+    'runtime does (appcfg.manifest_unique_name: unique id padded to 13 characters) - random 13-character ids, or in about '
+    '30% of the scenarios base-62 ids as gen_uniqueid emits them, zero-padded, with the newer container\'s significant '
+    'digits ending in the older one\'s (00000000000a1 / 0000000000ba1) or differing only in letter case; in 40% of the two-instance '
     'scenarios with an identity group the first instance holds identity 0 and the second is a surplus instance without an '
     'identity (registered under the group\'s placeholder node), the holder\'s runtime cleans its identity registration up '
     '(it may touch its own identity node only) and another runtime registers a further identity-less instance through '
@@ -78,6 +81,7 @@ REQUIRED_REACH = {'*': [
     'stale_terminal_events_with_connection_loss_on_write_request',
     'runtime_registration_next_to_live_session_of_same_server', 'runtime_registration_create_met_foreign_owner',
     'runtime_registrations_succeeded', 'runtime_registrations_refused',
+    'old_cleanup_next_to_newer_same_host_with_related_unique_ids',
 ]}
 
 
@@ -116,6 +120,10 @@ def _run(ctx, base):
             ctx.count('cases_same_short_hostname')
         w = run_case(rng, ctx.tier, count, base=base)
         desc = _scenario.describe(w.scn)
+        if w.scn.get('unique_ids'):
+            ctx.count('cases_related_zero_padded_unique_ids')
+            if local.get('old_cleanup_next_to_newer_same_host'):
+                ctx.count('old_cleanup_next_to_newer_same_host_with_related_unique_ids')
         ctx.count('interleavings')
         if w.trace_hash() not in seen:
             seen.add(w.trace_hash())
